@@ -185,7 +185,7 @@ static Outcome finish(LibCall &lc, bool failed)
 	BODY; \
 	bool arr_alloc_ = sim_alloc_fault_fired(); \
 	o = finish(lc, (FAILED_EXPR)); \
-	if (arr_try_ == 0 && o.fired && o.failed && !c.violated) { arr_pend_err_ = o.err; arr_pend_alloc_ = arr_alloc_; fault_failed(c, op.k, o.err, arr_alloc_); continue; } \
+	if (arr_try_ == 0 && o.fired && o.failed && !c.violated) { arr_pend_err_ = o.err; arr_pend_alloc_ = arr_alloc_; fault_failed(c, op.k, o.err, arr_alloc_); if (!c.no_retry) continue; } \
 	if (arr_try_ == 1 && !o.failed) fault_recovered(c, op.k, arr_pend_err_, arr_pend_alloc_ != 0); \
 	break; \
     }
